@@ -1,161 +1,462 @@
+// c04: correspondence + monitors for C04 (bridge solvency) and — with VERIF_PROP=C08 — the conversion half of C08
+// (pair books) on the REAL fx-core app with the real bank / erc20 / evm keepers.
+//
+// One history = one cache branch of a prepared chain (oracles on eth, bsc, tron): a fresh token universe is
+// registered (FX; a module-owned pair with 1-3 bridge aliases and optionally an IBC alias; an externally-owned pair
+// with aliases; sometimes a second module-owned pair), then 25-45 operations enter through Cosmos messages, the
+// crosschain precompile (real EVM transactions) and observed oracle claims + ExecuteClaim.  After every step the
+// harness records accept/reject and a checksum of all tracked observables (M_LedgerCorr.v); the model is evaluated on
+// the same steps by coqc.  Independently of the model the monitors recompute the property from real balances,
+// in-flight records and the claims that were fed.
 package main
 
 import (
+	"encoding/json"
 	"fmt"
 	"math/big"
+	"os"
+	"strings"
 
 	sdkmath "cosmossdk.io/math"
 	sdk "github.com/cosmos/cosmos-sdk/types"
-	"github.com/ethereum/go-ethereum/common"
 
 	crosschaintypes "github.com/functionx/fx-core/v8/x/crosschain/types"
-	erc20types "github.com/functionx/fx-core/v8/x/erc20/types"
 
 	"fxverif/lib"
 )
 
+type Step struct {
+	Op  Op     `json:"op"`
+	OK  bool   `json:"ok"`
+	Err string `json:"err,omitempty"`
+	Chk string `json:"-"`
+}
+
+type History struct {
+	Seed  int64  `json:"hist_seed"`
+	Spec  Spec   `json:"spec"`
+	Avoid bool   `json:"avoid_known"`
+	Ops   []Op   `json:"ops"`   // the generated operations (what replay re-executes)
+	Steps []Step `json:"steps"` // the recorded model-level steps with the real outcome
+}
+
+var prop = "C04"
+
 func main() {
-	c := lib.NewChain(1, 1, nil)
-	chains := []string{"eth", "bsc", "tron"}
-	xs := map[string]*lib.XChain{}
-	for _, ch := range chains {
+	if p := os.Getenv("VERIF_PROP"); p != "" {
+		prop = p
+	}
+	mode := os.Getenv("VERIF_MODE")
+	seed := lib.Seed()
+	rep := lib.NewReport(prop)
+	rep.Rule = "one case = one history (25-45 steps) on a fresh token universe (FX, module-owned pair with 1-3 bridge aliases +- IBC alias, externally-owned pair with 1-2 aliases, sometimes a 2nd module-owned pair) entered through Cosmos messages, precompile EVM txs and observed claims; parameters drawn from real balances with ~8% invalid; non-trivial = at least 3 accepted value-moving bridge steps and 2 token kinds touched; distinct by op-kind sequence + accept pattern"
+
+	c := lib.NewChain(seed, 1, nil)
+	for _, ch := range []string{"eth", "bsc", "tron"} {
 		x := c.X(ch)
 		x.SetupOracles([]int64{10000, 10000, 10000})
-		xs[ch] = x
+		xcache[ch] = x
 	}
 	lib.Must(c.NextBlock())
-	fx := c.SetupFX([]string{"eth"})
-	mod, err := c.SetupModuleOwned("USDT", 1, chains, "channel-0")
-	lib.Must(err)
-	owner := lib.EthKey(1, "extowner", 0)
-	ext, err := c.SetupExternal("EXT", 2, owner, []string{"eth", "bsc"})
-	lib.Must(err)
-	fmt.Println(fx, "\n", mod, "\n", ext)
-	u := lib.EthKey(1, "user", 0)
-	v := lib.EthKey(1, "user", 1)
-	c.EnsureAccount(c.Ctx, u.Acc())
-	c.EnsureAccount(c.Ctx, v.Acc())
-	toks := []*lib.Token{fx, mod, ext}
-	accs := map[string]sdk.AccAddress{"u": u.Acc(), "v": v.Acc(), "eth": lib.ModuleAcc("eth"), "bsc": lib.ModuleAcc("bsc"), "tron": lib.ModuleAcc("tron"), "erc20": lib.ModuleAcc("erc20"), "wfx": fx.ERC20.Bytes(), "ibc": lib.ModuleAcc("transfer")}
-	order := []string{"u", "v", "eth", "bsc", "tron", "erc20", "wfx", "ibc"}
-	bal := func(tag string) {
-		fmt.Println("==", tag)
-		for _, t := range toks {
-			if t.Kind == lib.TokFX {
-				continue
-			}
-			for _, d := range t.Denoms() {
-				s := fmt.Sprintf("  %-12.12s sup=%s", d, c.Supply(c.Ctx, d))
-				for _, a := range order {
-					b := c.Bal(c.Ctx, accs[a], d)
-					if b.Sign() != 0 {
-						s += fmt.Sprintf(" %s=%s", a, b)
-					}
+
+	if mode == "replay" {
+		replay(c, rep)
+		return
+	}
+
+	n := 45
+	if lib.Tier() == "thorough" {
+		n = 450
+	}
+	if mode == "search" {
+		n = 600
+	}
+	if v := lib.EnvInt("VERIF_N", 0); v > 0 {
+		n = int(v)
+	}
+	var items []string
+	for i := 0; i < n; i++ {
+		hseed := seed*1_000_003 + int64(i)
+		avoid := i%3 == 0 // a third of the histories avoid the triggers of the known findings
+		h, item := runHistory(c, hseed, avoid, rep)
+		items = append(items, item)
+		if i < 2 {
+			rep.Sample(map[string]interface{}{"hist_seed": h.Seed, "spec": h.Spec, "steps": len(h.Steps), "first_ops": firstOps(h, 6)})
+		}
+	}
+	if mode != "search" {
+		lib.WriteCases("Cases_"+prop+".v", []string{"model.M_Ledger", "model.M_LedgerCorr"}, "lcase", items, "ledger_mismatch")
+	}
+	rep.Write()
+}
+
+func firstOps(h *History, n int) []string {
+	var out []string
+	for i, s := range h.Steps {
+		if i >= n {
+			break
+		}
+		out = append(out, fmt.Sprintf("%s ok=%v", s.Op.Coq(), s.OK))
+	}
+	return out
+}
+
+func pickSpec(r *lib.Rand) Spec {
+	sub := func(must string, min int) []string {
+		all := []string{"eth", "bsc", "tron"}
+		for {
+			var out []string
+			for _, ch := range all {
+				if ch == must || r.Chance(55) {
+					out = append(out, ch)
 				}
-				fmt.Println(s)
 			}
-			s := fmt.Sprintf("  erc20 %s total=%s", t.Symbol, c.ERC20TotalSupply(c.Ctx, t.ERC20))
-			for _, a := range order {
-				b := c.ERC20BalanceOf(c.Ctx, t.ERC20, common.BytesToAddress(accs[a]))
-				if b.Sign() != 0 {
-					s += fmt.Sprintf(" %s=%s", a, b)
+			if len(out) >= min {
+				return out
+			}
+		}
+	}
+	sp := Spec{Chains: []string{"eth", "bsc", "tron"}}
+	sp.ModChains = sub("", 1)
+	sp.ModIBC = r.Chance(50)
+	sp.ExtChains = sub("", 1)
+	if len(sp.ExtChains) > 2 {
+		sp.ExtChains = sp.ExtChains[:2]
+	}
+	if r.Chance(25) {
+		sp.Mod2 = sub("", 1)
+	}
+	return sp
+}
+
+func runHistory(c *lib.Chain, hseed int64, avoid bool, rep *lib.Report) (*History, string) {
+	r := lib.NewRand(hseed)
+	sp := pickSpec(r)
+	h := &History{Seed: hseed, Spec: sp, Avoid: avoid}
+	return h, execHistory(c, h, r, nil, rep)
+}
+
+// execHistory runs (generating, or replaying fixed when fixed != nil) one history on a cache branch of c.
+func execHistory(c *lib.Chain, h *History, r *lib.Rand, fixed []Op, rep *lib.Report) string {
+	base := c.Ctx
+	branch, _ := base.CacheContext()
+	c.Ctx = branch
+	defer func() { c.Ctx = base }()
+
+	w := NewWorld(c, h.Spec, h.Seed)
+	g := &Gen{R: r, W: w, Prop: prop, AvoidKF: h.Avoid}
+	mon := newMonitor(w, rep, h)
+
+	init := w.cells(c.Ctx)
+	initCoq := w.initCoq(init)
+
+	var stepsCoq []string
+	record := func(o Op, err error) {
+		cells := w.cells(c.Ctx)
+		chk := checksum(cells)
+		st := Step{Op: o, OK: err == nil, Chk: chk.String()}
+		if err != nil {
+			st.Err = trunc(err.Error(), 160)
+		}
+		h.Steps = append(h.Steps, st)
+		stepsCoq = append(stepsCoq, fmt.Sprintf("(%s, %s, %s)", o.Coq(), lib.Bool(err == nil), lib.ZBig(chk)))
+		rep.Count("op:" + o.K + ":" + map[bool]string{true: "ok", false: "rej"}[err == nil])
+		if err != nil {
+			rep.Count("err:" + errClass(err))
+		}
+	}
+
+	nSteps := 25 + r.Pick(21)
+	if fixed != nil {
+		nSteps = len(fixed)
+	}
+	moved, kinds := 0, map[lib.TokenKind]bool{}
+	for i := 0; i < nSteps; i++ {
+		var o Op
+		if fixed != nil {
+			o = fixed[i]
+		} else {
+			o = g.Next(i)
+		}
+		h.Ops = append(h.Ops, o)
+		pre := mon.before(o)
+		subs := w.perform(&o, record, mon)
+		mon.after(o, pre, subs)
+		if subs.ok && o.K != "Toggle" && o.K != "Observe" {
+			moved++
+			if o.T < len(w.Toks) {
+				kinds[w.Toks[o.T].Kind] = true
+			}
+			for _, p := range o.Toks {
+				kinds[w.Toks[p[0]].Kind] = true
+			}
+		}
+	}
+	key := ""
+	for _, s := range h.Steps {
+		key += s.Op.K[:2] + map[bool]string{true: "+", false: "-"}[s.OK]
+	}
+	rep.Case(key, moved >= 3 && len(kinds) >= 2)
+	rep.Count(fmt.Sprintf("tokens:%d", len(w.Toks)))
+	rep.Count(fmt.Sprintf("mod-aliases:%d", len(h.Spec.ModChains)))
+	hist := fmt.Sprintf("mk_lcase %s %s %s %s\n   %s", w.cfgCoq(), intsCoq(w.Accts), intsCoq(w.Chains), initCoq, lib.List(stepsCoq))
+	return hist
+}
+
+func trunc(s string, n int) string {
+	if len(s) > n {
+		return s[:n]
+	}
+	return s
+}
+
+func intsCoq(l []int) string {
+	var s []string
+	for _, v := range l {
+		s = append(s, zi(v))
+	}
+	return lib.List(s)
+}
+
+func (w *World) cfgCoq() string {
+	var ts []string
+	for t, tk := range w.Toks {
+		kind := map[lib.TokenKind]string{lib.TokFX: "KFX", lib.TokModuleOwned: "KMod", lib.TokExternal: "KExt"}[tk.Kind]
+		var chs []int
+		for _, a := range tk.Aliases {
+			chs = append(chs, chainID(a.Chain))
+		}
+		ts = append(ts, fmt.Sprintf("{| t_id := %d; t_kind := %s; t_chains := %s; t_ibc := %s |}", t, kind, intsCoq(chs), lib.Bool(tk.IBCDenom != "")))
+	}
+	return lib.List(ts)
+}
+
+// initCoq renders the initial bank / supply / ebal / etot maps and the per-chain observed heights from a cell dump.
+func (w *World) initCoq(cells []*big.Int) string {
+	dn := w.allDenoms()
+	i := 0
+	var bank, sup, eb, et []string
+	for _, a := range w.Accts {
+		for _, d := range dn {
+			if cells[i].Sign() != 0 {
+				bank = append(bank, fmt.Sprintf("((%d, %d), %s)", a, w.denomID(d.T, d.Which), lib.ZBig(cells[i])))
+			}
+			i++
+		}
+	}
+	for _, d := range dn {
+		if cells[i].Sign() != 0 {
+			sup = append(sup, fmt.Sprintf("(%d, %s)", w.denomID(d.T, d.Which), lib.ZBig(cells[i])))
+		}
+		i++
+	}
+	for t := range w.Toks {
+		for _, a := range w.Accts {
+			if cells[i].Sign() != 0 {
+				eb = append(eb, fmt.Sprintf("((%d, %d), %s)", t, a, lib.ZBig(cells[i])))
+			}
+			i++
+		}
+	}
+	for t := range w.Toks {
+		if cells[i].Sign() != 0 {
+			et = append(et, fmt.Sprintf("(%d, %s)", t, lib.ZBig(cells[i])))
+		}
+		i++
+	}
+	var hs []string
+	for _, c := range w.Chains {
+		hs = append(hs, fmt.Sprintf("(%d, %d)", c, w.xs(c).Keeper.GetLastObservedBlockHeight(w.C.Ctx).ExternalBlockHeight))
+	}
+	return fmt.Sprintf("%s %s %s %s %s", lib.List(bank), lib.List(sup), lib.List(eb), lib.List(et), lib.List(hs))
+}
+
+type perfResult struct {
+	ok       bool
+	err      error
+	executed bool // the value-moving part (exec of the pending claim) ran and succeeded
+}
+
+// perform executes one generated operation; composite real operations (observe + execute) are recorded as the
+// model's separate steps.
+func (w *World) perform(o *Op, record func(Op, error), mon *Monitor) perfResult {
+	c := o.C
+	nextH := func() uint64 {
+		h := w.height[c]
+		if h == 0 {
+			h = w.xs(c).Keeper.GetLastObservedBlockHeight(w.C.Ctx).ExternalBlockHeight
+		}
+		if h == 0 {
+			h = 1000
+		}
+		return h + 1
+	}
+	obsFail := fmt.Errorf("observation failed (claim transaction aborted)")
+	switch o.K {
+	case "SendToFx":
+		if w.stuck[c] {
+			c = 1
+			o.C = 1
+		}
+		a := w.Toks[o.T].Alias(chainName(c))
+		contractAddr := lib.ExternalContract(w.C.Seed, chainName(c), 777) // unknown contract if the token has no alias here
+		if a != nil {
+			contractAddr = a.Contract
+		}
+		tgt := ""
+		if o.Tgt == 1 {
+			tgt = hexTarget("erc20")
+		}
+		h := nextH()
+		n, ok := w.observe(c, h, func(n, h uint64) crosschaintypes.ExternalClaim {
+			return &crosschaintypes.MsgSendToFxClaim{EventNonce: n, BlockHeight: h, TokenContract: contractAddr, Amount: sdkmath.NewInt(o.X),
+				Sender: lib.ExternalAccount(w.C.Seed, chainName(c), 0), Receiver: w.Addr(o.A).String(), TargetIbc: tgt}
+		})
+		if !ok {
+			record(Op{K: "Observe", C: c, H: int64(h)}, obsFail)
+			mon.refundRefused(*o, "observe")
+			return perfResult{}
+		}
+		record(Op{K: "Observe", C: c, H: int64(h)}, nil)
+		o.ID = int64(n)
+		err := w.Exec(o)
+		record(*o, err)
+		return perfResult{ok: err == nil, err: err, executed: err == nil}
+	case "ObserveJump":
+		// X: 0 = +1, 1 = beyond the earliest batch timeout, 2 = beyond the earliest bridge-call timeout
+		h := nextH()
+		switch o.X {
+		case 1:
+			for _, b := range w.xs(c).Keeper.GetOutgoingTxBatches(w.C.Ctx) {
+				if b.BatchTimeout+1 > h {
+					h = b.BatchTimeout + 1
 				}
 			}
-			fmt.Println(s)
-		}
-		s := "  FX"
-		for _, a := range []string{"eth", "erc20", "wfx"} {
-			s += fmt.Sprintf(" %s=%s", a, c.Bal(c.Ctx, accs[a], "FX"))
-		}
-		fmt.Println(s, "wfxTotal", c.ERC20TotalSupply(c.Ctx, fx.ERC20))
-	}
-	bal("init")
-	nonces := map[string]uint64{}
-	claimExec := func(ch string, mk func(n uint64) crosschaintypes.ExternalClaim) error {
-		nonces[ch]++
-		n := nonces[ch]
-		errs := xs[ch].ObserveAll(func() crosschaintypes.ExternalClaim { return mk(n) })
-		for _, e := range errs {
-			if e != nil {
-				fmt.Println("  claim err", e)
+		case 2:
+			var first uint64
+			w.xs(c).Keeper.IterateOutgoingBridgeCalls(w.C.Ctx, func(oc *crosschaintypes.OutgoingBridgeCall) bool {
+				first = oc.Timeout
+				return true
+			})
+			if first > h {
+				h = first
 			}
 		}
-		return c.Try(func(ctx sdk.Context) error { return xs[ch].Keeper.ExecuteClaim(ctx, n) })
-	}
-	height := uint64(1000)
-	sendToFx := func(ch string, t *lib.Token, to sdk.AccAddress, amt int64, target string) error {
-		height++
-		return claimExec(ch, func(n uint64) crosschaintypes.ExternalClaim {
-			return &crosschaintypes.MsgSendToFxClaim{EventNonce: n, BlockHeight: height, TokenContract: t.Alias(ch).Contract, Amount: sdkmath.NewInt(amt), Sender: lib.ExternalAccount(1, ch, 0), Receiver: to.String(), TargetIbc: target}
+		a := w.Toks[1].Alias(chainName(c))
+		ca := lib.ExternalContract(w.C.Seed, chainName(c), 778)
+		if a != nil {
+			ca = a.Contract
+		}
+		_, ok := w.observe(c, h, func(n, h uint64) crosschaintypes.ExternalClaim {
+			return &crosschaintypes.MsgSendToFxClaim{EventNonce: n, BlockHeight: h, TokenContract: ca, Amount: sdkmath.ZeroInt(),
+				Sender: lib.ExternalAccount(w.C.Seed, chainName(c), 0), Receiver: w.Addr(uBase).String()}
 		})
-	}
-	try := func(tag string, e error) { fmt.Println(tag, "->", e); bal(tag) }
-	try("sendToFx usdt eth 1000 -> u", sendToFx("eth", mod, u.Acc(), 1000, ""))
-	try("sendToFx usdt bsc 500 -> v", sendToFx("bsc", mod, v.Acc(), 500, ""))
-	try("sendToFx FX eth 300 -> u", sendToFx("eth", fx, u.Acc(), 300, ""))
-	try("sendToFx EXT eth 300 -> u (nothing locked)", sendToFx("eth", ext, u.Acc(), 300, ""))
-	// external: owner mints 5000 EXT erc20 to u, u converts 2000 to coin
-	lib.Must(c.ERC20OwnerMint(c.Ctx, ext.ERC20, owner, u.Hex(), big.NewInt(5000)))
-	try("convertERC20 EXT 2000", c.Try(func(ctx sdk.Context) error {
-		_, e := c.App.Erc20Keeper.ConvertERC20(ctx, &erc20types.MsgConvertERC20{ContractAddress: ext.ERC20.Hex(), Amount: sdkmath.NewInt(2000), Receiver: u.Acc().String(), Sender: u.Hex().Hex()})
-		return e
-	}))
-	send := func(ch string, from lib.Key, denom string, amt, fee int64) error {
-		return c.Try(func(ctx sdk.Context) error {
-			m := &crosschaintypes.MsgSendToExternal{Sender: from.Acc().String(), Dest: lib.ExternalAccount(1, ch, 1), Amount: lib.Coin(denom, amt), BridgeFee: lib.Coin(denom, fee), ChainName: ch}
-			if e := m.ValidateBasic(); e != nil {
-				return e
+		oo := Op{K: "Observe", C: c, H: int64(h)}
+		if !ok {
+			record(oo, obsFail)
+			mon.refundRefused(oo, "timeout")
+			return perfResult{}
+		}
+		record(oo, nil)
+		*o = oo
+		return perfResult{ok: true}
+	case "BatchExecuted":
+		a := w.Toks[o.T].Alias(chainName(c))
+		h := nextH()
+		o.H = int64(h)
+		mon.noteBatch(c, a.Contract, uint64(o.ID))
+		_, ok := w.observe(c, h, func(n, h uint64) crosschaintypes.ExternalClaim {
+			return &crosschaintypes.MsgSendToExternalClaim{EventNonce: n, BlockHeight: h, BatchNonce: uint64(o.ID), TokenContract: a.Contract}
+		})
+		if !ok {
+			record(*o, obsFail)
+			return perfResult{}
+		}
+		record(*o, nil)
+		return perfResult{ok: true, executed: true}
+	case "BridgeCallResult":
+		h := nextH()
+		mon.noteCall(c, uint64(o.ID))
+		n, ok := w.observe(c, h, func(n, h uint64) crosschaintypes.ExternalClaim {
+			return &crosschaintypes.MsgBridgeCallResultClaim{EventNonce: n, BlockHeight: h, Nonce: uint64(o.ID),
+				TxOrigin: lib.ExternalAccount(w.C.Seed, chainName(c), 3), Success: o.Flag, Cause: "x"}
+		})
+		if !ok {
+			record(Op{K: "Observe", C: c, H: int64(h)}, obsFail)
+			mon.refundRefused(*o, "observe")
+			return perfResult{}
+		}
+		record(Op{K: "Observe", C: c, H: int64(h)}, nil)
+		o.H = int64(n)
+		err := w.Exec(o)
+		record(*o, err)
+		if err != nil && !o.Flag {
+			mon.refundRefused(*o, "result")
+		}
+		return perfResult{ok: err == nil, err: err, executed: err == nil}
+	case "BridgeCallIn":
+		h := nextH()
+		var contracts []string
+		var amounts []sdkmath.Int
+		for _, p := range o.Toks {
+			a := w.Toks[p[0]].Alias(chainName(c))
+			ca := lib.ExternalContract(w.C.Seed, chainName(c), 779)
+			if a != nil {
+				ca = a.Contract
 			}
-			r, e := xs[ch].Msg().SendToExternal(ctx, m)
-			if e == nil {
-				fmt.Println("  txid", r.OutgoingTxId)
-			}
-			return e
+			contracts = append(contracts, ca)
+			amounts = append(amounts, sdkmath.NewInt(p[1]))
+		}
+		n, ok := w.observe(c, h, func(n, h uint64) crosschaintypes.ExternalClaim {
+			return &crosschaintypes.MsgBridgeCallClaim{EventNonce: n, BlockHeight: h, Sender: lib.ExternalAccount(w.C.Seed, chainName(c), 4),
+				Refund: w.extAddr(c, o.B), TokenContracts: contracts, Amounts: amounts, To: w.extAddr(c, o.To), Data: "", Value: sdkmath.ZeroInt(),
+				Memo: "", TxOrigin: lib.ExternalAccount(w.C.Seed, chainName(c), 3)}
 		})
+		if !ok {
+			record(Op{K: "Observe", C: c, H: int64(h)}, obsFail)
+			mon.refundRefused(*o, "observe")
+			return perfResult{}
+		}
+		record(Op{K: "Observe", C: c, H: int64(h)}, nil)
+		o.H = int64(n)
+		err := w.Exec(o)
+		record(*o, err)
+		return perfResult{ok: err == nil, err: err, executed: err == nil}
 	}
-	try("send usdt eth 100+7 by u", send("eth", u, "usdt", 100, 7))
-	try("send usdt bsc 600+0 by u (only 500 in via bsc)", send("bsc", u, "usdt", 600, 1))
-	try("send usdt tron 10+1 by u (0 in via tron)", send("tron", u, "usdt", 10, 1))
-	try("send ext eth 400+5 by u", send("eth", u, "ext", 400, 5))
-	try("send FX eth 50+5 by u", send("eth", u, "FX", 50, 5))
-	try("sendToFx EXT eth 300 -> v (405 locked)", sendToFx("eth", ext, v.Acc(), 300, ""))
-	cancel := func(ch string, from lib.Key, id uint64) error {
-		return c.Try(func(ctx sdk.Context) error {
-			_, e := xs[ch].Msg().CancelSendToExternal(ctx, &crosschaintypes.MsgCancelSendToExternal{ChainName: ch, TransactionId: id, Sender: from.Acc().String()})
-			return e
-		})
+	err := w.Exec(o)
+	record(*o, err)
+	return perfResult{ok: err == nil, err: err, executed: err == nil}
+}
+
+// ---------------- replay ----------------
+
+func replay(c *lib.Chain, rep *lib.Report) {
+	path := os.Getenv("VERIF_REPLAY")
+	b, err := os.ReadFile(path)
+	lib.Must(err)
+	var doc struct {
+		Replay json.RawMessage `json:"replay"`
 	}
-	try("cancel usdt eth #1", cancel("eth", u, 1))
-	try("convertCoin usdt 200 u->u", c.Try(func(ctx sdk.Context) error {
-		_, e := c.App.Erc20Keeper.ConvertCoin(ctx, &erc20types.MsgConvertCoin{Coin: lib.Coin("usdt", 200), Receiver: u.Hex().Hex(), Sender: u.Acc().String()})
-		return e
-	}))
-	try("convertCoin FX 100 u->u", c.Try(func(ctx sdk.Context) error {
-		_, e := c.App.Erc20Keeper.ConvertCoin(ctx, &erc20types.MsgConvertCoin{Coin: lib.Coin("FX", 100), Receiver: u.Hex().Hex(), Sender: u.Acc().String()})
-		return e
-	}))
-	// bridge call out msg + failed result => old-rule refund
-	bcall := func(ch string, from, refund lib.Key, coins sdk.Coins) error {
-		return c.Try(func(ctx sdk.Context) error {
-			m := &crosschaintypes.MsgBridgeCall{ChainName: ch, Sender: from.Acc().String(), Refund: refund.Acc().String(), Coins: coins, To: lib.ExternalAccount(1, ch, 2), Data: "", Memo: "", Value: sdkmath.ZeroInt()}
-			if e := m.ValidateBasic(); e != nil {
-				return e
-			}
-			_, e := xs[ch].Msg().BridgeCall(ctx, m)
-			return e
-		})
+	lib.Must(json.Unmarshal(b, &doc))
+	var h History
+	if len(doc.Replay) > 0 {
+		lib.Must(json.Unmarshal(doc.Replay, &h))
+	} else {
+		lib.Must(json.Unmarshal(b, &h))
 	}
-	try("bridgeCall msg eth usdt 150", bcall("eth", u, u, sdk.NewCoins(lib.Coin("usdt", 150))))
-	try("bridgeCall msg eth FX 20", bcall("eth", u, u, sdk.NewCoins(lib.Coin("FX", 20))))
-	try("bridgeCall msg eth ext 30", bcall("eth", u, u, sdk.NewCoins(lib.Coin("ext", 30))))
-	result := func(ch string, nonce uint64, ok bool) error {
-		height++
-		return claimExec(ch, func(n uint64) crosschaintypes.ExternalClaim {
-			return &crosschaintypes.MsgBridgeCallResultClaim{EventNonce: n, BlockHeight: height, Nonce: nonce, TxOrigin: lib.ExternalAccount(1, ch, 3), Success: ok, Cause: "x"}
-		})
+	ops := h.Ops
+	h2 := &History{Seed: h.Seed, Spec: h.Spec, Avoid: h.Avoid}
+	execHistory(c, h2, lib.NewRand(h.Seed), ops, rep)
+	for _, s := range h2.Steps {
+		fmt.Printf("%-60s ok=%v %s\n", s.Op.Coq(), s.OK, s.Err)
 	}
-	try("result fail #1 (usdt refund, old rule)", result("eth", 1, false))
-	try("result fail #2 (FX refund)", result("eth", 2, false))
-	try("result fail #3 (ext refund)", result("eth", 3, false))
-	try("send usdt eth 700+0 by u after refund", send("eth", u, "usdt", 700, 1))
+	for _, f := range rep.Failures {
+		fmt.Println("FAILURE:", f.Sig, "—", f.What)
+	}
+	if len(rep.Failures) == 0 {
+		fmt.Println("no monitor failure on replay")
+	}
+	rep.Write()
+	_ = strings.TrimSpace
+	_ = sdk.Coin{}
 }
